@@ -379,6 +379,11 @@ func genAmbProg(t *rapid.T, bl []nameArity) ambProg {
 				args := make([]string, b.arity)
 				for i := range args {
 					args[i] = pick(t, "arg", ambArgs)
+					if i == 0 && (b.name == "jn" || b.name == "yn") {
+						// the order of a Bessel function is a loop count inside math.Jn/Yn:
+						// 1e12 | yn(.; 1) runs for hours without polling the context
+						args[i] = pick(t, "order", []string{"0", "1", "2", "3", "10", "-1", "1.5", "(1,2)", "null", "\"a\""})
+					}
 					if strings.Contains(args[i], "env") || strings.Contains(args[i], "ENV") {
 						p.caps = true
 					}
@@ -477,20 +482,31 @@ func runAmbient(t *testing.T) {
 	}
 
 	batch := 250
-	rec.Rapid(t, "ambient", rec.Scale(72, 6000), func(t *rapid.T) {
+	spawnFailure := "" // a child that died or hung: machinery, not a verdict (no shrinking through 60 s timeouts)
+	defer func() {
+		if spawnFailure != "" {
+			t.Errorf("ambient: %s", spawnFailure)
+		}
+	}()
+	rec.Rapid(t, "ambient", rec.Scale(240, 12000), func(t *rapid.T) {
 		bf := batchFile{Mode: "plain"}
 		progs := make([]ambProg, batch)
 		for i := 0; i < batch; i++ {
 			progs[i] = genAmbProg(t, bl)
 			bf.Cases = append(bf.Cases, ambCase{Query: progs[i].src, Input: univ.V{X: pick(t, "input", ambInputs)}})
 		}
+		if spawnFailure != "" {
+			return
+		}
 		a, err := w.spawn(w.a, bf)
 		if err != nil {
-			t.Fatalf("%v", err)
+			spawnFailure = err.Error()
+			return
 		}
 		b, err := w.spawn(w.b, bf)
 		if err != nil {
-			t.Fatalf("%v", err)
+			spawnFailure = err.Error()
+			return
 		}
 		for i, c := range bf.Cases {
 			rec.Eval()
@@ -516,7 +532,7 @@ func runAmbient(t *testing.T) {
 				rec.Class("ambient/mentions-capability-or-date")
 				rec.NT("ambient\x00" + c.Query + "\x00" + univ.Show(c.Input.X))
 			}
-			rec.Sample(map[string]any{"sub": "ambient", "query": c.Query, "input": univ.Show(c.Input.X), "result": tail(p, 300)})
+			sample("ambient", map[string]any{"sub": "ambient", "query": c.Query, "input": univ.Show(c.Input.X), "result": tail(p, 300)})
 			if msg := ambientMsg(c, a[i], b[i], p); msg != "" {
 				// confirm on the single case, in fresh children
 				if msg2 := checkAmbient(c); msg2 != "" {
